@@ -513,6 +513,9 @@ def sim_integ(ctx):
         if A.is_zero(d):
             okl = okl and A.eq(cur, A.sym('lat0'))
             why = why or 'the iteration does not start from the initial latitude'
+            if okl and depth == 0:
+                okl, why = False, ('the latitude handed on is the constant initial latitude: no '
+                                   'iterate of the integration reaches the result')
             break
         depth += 1
         if depth > 12:
